@@ -122,19 +122,69 @@ def render(objs, kind, conf, nocolor, mode):
     if kind == 'record':
         data = objs.recfmt(objs.rec, colors_conf=conf, no_color=nocolor)
         return str(data.ch_text()) if mode == 'whole' else ' '.join(str(c) for c in data.columns)
-    if kind == 'pp':
-        res = objs.pp(objs.value, colors_conf=conf, no_color=nocolor)
-    elif kind == 'table':
-        res = objs.table.ch_text(colors_conf=conf, no_color=nocolor)
-    elif kind == 'table2':
-        res = objs.table2.ch_text(colors_conf=conf, no_color=nocolor)
-    elif kind == 'ghist':
-        res = objs.ghist.ch_text(colors_conf=conf, no_color=nocolor)
-    else:
-        res = objs.leadblank.ch_text(colors_conf=conf, no_color=nocolor)
+    def start(conf, nocolor):
+        if kind == 'pp':
+            return objs.pp(objs.value, colors_conf=conf, no_color=nocolor)
+        if kind == 'table':
+            return objs.table.ch_text(colors_conf=conf, no_color=nocolor)
+        if kind == 'table2':
+            return objs.table2.ch_text(colors_conf=conf, no_color=nocolor)
+        if kind == 'ghist':
+            return objs.ghist.ch_text(colors_conf=conf, no_color=nocolor)
+        return objs.leadblank.ch_text(colors_conf=conf, no_color=nocolor)
+    res = start(conf, nocolor)
     if mode == 'whole':
         return str(res)
-    return '\n'.join(str(CHText(line)) for line in res)
+    if mode == 'lines':
+        return '\n'.join(str(CHText(line)) for line in res)
+    if mode == 'collect':
+        # all lines are collected first and turned into text afterwards
+        lines = list(res)
+        return '\n'.join(str(CHText(line)) for line in lines)
+    # 'inter1' / 'inter2': a second rendering of the same object under another configuration is consumed in
+    # alternation (side by side printing); it is started first / second
+    other = iter(start(_other_conf(), not nocolor))
+    mine = iter(res)
+    out = []
+    first = True
+    while True:
+        if mode == 'inter1' or not first:
+            next(other, None)
+        first = False
+        try:
+            line = next(mine)
+        except StopIteration:
+            break
+        out.append(line)
+        if mode == 'inter2' and len(out) == 1:
+            next(other, None)
+    for _ in other:
+        pass
+    return '\n'.join(str(CHText(line)) for line in out)
+
+
+_OTHER = []
+
+
+def _other_conf():
+    if not _OTHER:
+        _OTHER.append(make_conf(2, False))
+    return _OTHER[0]
+
+
+LINE_MODES = ('lines', 'collect', 'inter1', 'inter2')
+
+
+def render_linewise(objs, kind, conf, nocolor, whole):
+    """the object consumed line by line in every supported way; returns the first result that differs from the
+    whole text (or the whole text when all agree)"""
+    if kind in ('help', 'record'):
+        return render(objs, kind, conf, nocolor, 'lines')
+    for mode in LINE_MODES:
+        s = render(objs, kind, conf, nocolor, mode)
+        if s != whole:
+            return s
+    return whole
 
 
 if __name__ == '__main__':
